@@ -5,7 +5,7 @@ import z3
 
 from . import vals as V
 from .vals import Val
-from .engine import (Z, PyTuple, RefV, ListBox, SeqBox, AbsBox, ObjBox, FuncV, ClassV, BuiltinV,
+from .engine import (Z, PyTuple, RefV, ListBox, SeqBox, AbsBox, ObjBox, LambdaV, FuncV, ClassV, BuiltinV,
                      ModuleV, SpecFuncV, Exc, Unsupported, State, Obligation, is_exc, assigned_names)
 from .exec import Executor, T, LIB_KIND, BUILTIN_TYPES
 
@@ -62,6 +62,8 @@ class Engine(Executor):
                 ci = self.P.find_class(box.cls)
                 if ci is not None and "__len__" in ci.methods:
                     return self.call_function(ci.methods["__len__"], [v], {}, s, node)
+            if isinstance(box, AbsBox) and box.length is not None:
+                return [(s, Z(V.VInt(box.length), "int"))]
             raise Unsupported("len of opaque collection", node)
         if isinstance(v, Z):
             t = v.t
@@ -106,6 +108,51 @@ class Engine(Executor):
                 r = z3.If(V.is_Str(t), V.int_of(V.get_s(t)), z3.If(V.is_Float(t), V.fresh("trunc", V.I), V.to_int(t)))
                 out.append((s3, Z(V.VInt(r), "int")))
         return out
+
+    def bi_map(self, args, kwargs, s, node):
+        if len(args) != 2 or not isinstance(args[0], LambdaV):
+            raise Unsupported("map() with other than a lambda and one iterable", node)
+        return [(s, ("map", args[0], args[1]))]
+
+    def bi_list(self, args, kwargs, s, node):
+        if not args:
+            return [(s, s.alloc(ListBox([])))]
+        v = args[0]
+        if isinstance(v, tuple) and v and v[0] == "map":
+            _m, lam, seq = v
+            if isinstance(seq, RefV) and isinstance(s.store[seq.ref], SeqBox) and s.store[seq.ref].elem == "str":
+                box = s.store[seq.ref]
+                # the lambda is checked once on an arbitrary element (safety + result type)
+                el = Z(V.VStr(V.fresh("mapelem", V.S)), "str")
+                sub = s.fork()
+                sub.env = dict(lam.env)
+                params = [a.arg for a in lam.node.args.args]
+                if len(params) != 1:
+                    raise Unsupported("lambda arity", node)
+                sub.env[params[0]] = el
+                saved = self.cur_fi
+                self.cur_fi = lam.fi
+                try:
+                    rs = self.ev(lam.node.body, sub)
+                finally:
+                    self.cur_fi = saved
+                ok = all((not is_exc(r)) and isinstance(r, Z) and self.def_str(r, s2) for (s2, r) in rs)
+                for (s2, r) in rs:
+                    if is_exc(r):
+                        return [(s, r)]
+                if not ok:
+                    raise Unsupported("map(lambda) result is not a str", node)
+                res = V.fresh("mapped", V.SeqStr)
+                s.assume(z3.Length(res) == z3.Length(box.term))
+                return [(s, s.alloc(SeqBox(res, "str", "list")))]
+            raise Unsupported("list(map(...)) over a non-str sequence", node)
+        if isinstance(v, RefV) and isinstance(s.store[v.ref], (ListBox, SeqBox, AbsBox)):
+            b = s.store[v.ref].clone()
+            b.kind = "list"
+            return [(s, s.alloc(b))]
+        if isinstance(v, PyTuple):
+            return [(s, s.alloc(ListBox(v.items)))]
+        raise Unsupported("list() of %s" % type(v).__name__, node)
 
     def bi_bool(self, args, kwargs, s, node):
         return [(s, Z(V.VBool(self.truth(args[0], s, node)), "bool"))]
@@ -345,16 +392,35 @@ class Engine(Executor):
                 if fields > len(args):
                     out.append((s2, Exc("IndexError", self.origin(node), "format(): more {} than arguments")))
                 else:
-                    out.append((s2, Z(V.VStr(V.fresh("fmt", V.S)), "str")))
+                    # exact rendering for str/int/bool/None arguments, an unconstrained piece otherwise
+                    pieces = lit.replace("{{", "\x00").replace("}}", "\x01").split("{}")
+                    r = z3.StringVal(pieces[0].replace("\x00", "{").replace("\x01", "}"))
+                    for k, piece in enumerate(pieces[1:]):
+                        a = args[k]
+                        if isinstance(a, Z) and (a.hint in ("str", "int", "bool") or self.def_str(a, s2)):
+                            r = z3.Concat(r, V.py_str(a.t))
+                        else:
+                            r = z3.Concat(r, V.fresh("fmtarg", V.S))
+                        r = z3.Concat(r, z3.StringVal(piece.replace("\x00", "{").replace("\x01", "}")))
+                    out.append((s2, Z(V.VStr(z3.simplify(r)), "str")))
             elif meth == "join":
                 a = args[0]
                 out.extend(self.str_join(sv, a, s2, node))
             elif meth == "replace":
                 a, b = args[0], args[1]
-                out.append((s2, Z(V.VStr(z3.Replace(sv, V.get_s(a.t), V.get_s(b.t))) if False else V.VStr(V.fresh("replace_all", V.S)), "str")))
+                for (s3, y) in self.need(s2, z3.And(self.isk(a, "str"), self.isk(b, "str")), "TypeError", node, "replace(): both arguments are str"):
+                    out.append((s3, y if y is not None else Z(V.VStr(V.fresh("replace_all", V.S)), "str")))
                 self.assumptions.add("str.replace result is an unconstrained str (replace-all is not encoded)")
             elif meth == "split":
-                raise Unsupported("str.split", node)
+                if len(args) != 1 or not isinstance(args[0], Z):
+                    raise Unsupported("str.split without a separator", node)
+                for (s3, y) in self.need(s2, z3.And(self.isk(args[0], "str"), z3.Length(V.get_s(args[0].t)) > 0), "ValueError", node, "split(): non-empty str separator"):
+                    if y is not None:
+                        out.append((s3, y))
+                    else:
+                        parts = V.fresh("split", V.SeqStr)
+                        s3.assume(z3.Length(parts) >= 1)
+                        out.append((s3, s3.alloc(SeqBox(parts, "str", "list"))))
             else:
                 raise Unsupported("str.%s" % meth, node)
         return out
@@ -382,10 +448,25 @@ class Engine(Executor):
 
     def list_method(self, recv, box, meth, args, s, node):
         if isinstance(box, AbsBox):
-            if meth in ("append", "appendleft", "extend"):
+            if meth in ("append", "appendleft"):
+                if box.length is not None:
+                    box.length = box.length + 1
+                return [(s, Z(V.VNone))]
+            if meth == "extend":
+                box.length = None
                 return [(s, Z(V.VNone))]
             if meth == "copy":
-                return [(s, s.alloc(AbsBox(box.kind)))]
+                return [(s, s.alloc(box.clone()))]
+            if meth == "pop" and not args and box.length is not None and box.elem_ann is not None:
+                out = []
+                for (s2, x) in self.need(s, box.length > 0, "IndexError", node, "pop() from a non-empty collection"):
+                    if x is not None:
+                        out.append((s2, x))
+                        continue
+                    b2 = s2.store[recv.ref]
+                    b2.length = b2.length - 1
+                    out.append((s2, self.fresh_of_annotation(b2.elem_ann, "popped%d" % len(self.obligations), s2, node)))
+                return out
             raise Unsupported("read of an opaque local collection (.%s)" % meth, node)
         if meth == "append":
             v = args[0]
@@ -529,7 +610,10 @@ class Engine(Executor):
             self.cur_fi = saved_fi
             st.env = saved_env
 
-    def apply_contract(self, c, fi, args, kwargs, s, node):
+    def check_call_pre(self, c, fi, args, kwargs, s, node):
+        self.apply_contract(c, fi, args, kwargs, s, node, pre_only=True)
+
+    def apply_contract(self, c, fi, args, kwargs, s, node, pre_only=False):
         env, pend = self.bind_args(fi, args, kwargs, s, node)
         for (n, dexpr) in pend:
             saved = self.cur_fi
@@ -548,15 +632,28 @@ class Engine(Executor):
                 cst, _ = self.constraint_of_annotation(ast.parse(ann, mode="eval").body, v.t)
                 if cst is not None:
                     self.prove(s, cst, "K5", node, "call-pre of %s: %s is %s" % (fi.name, pname, ann), clause="param:" + pname)
+        if "*" in c.params and fi.node.args.vararg is not None:
+            va = env.get(fi.node.args.vararg.arg)
+            if isinstance(va, PyTuple):
+                for i, item in enumerate(va.items):
+                    if isinstance(item, Z):
+                        cst, _ = self.constraint_of_annotation(ast.parse(c.params["*"], mode="eval").body, item.t)
+                        if cst is not None and not (item.hint == "str" and c.params["*"] == "str"):
+                            self.prove(s, cst, "K5", node, "call-pre of %s: *args[%d] is %s" % (fi.name, i, c.params["*"]), clause="param:*")
         for r in c.requires:
             for (s2, b) in self.eval_clause(r, s, env, node):
                 self.prove(s2, b, "K5", node, "call-pre of %s: %s" % (fi.name, r), clause=r)
+        if pre_only:
+            return []
         # result
-        if c.pure_fn:
+        ret_ann = c.opts.get("returns")
+        if ret_ann and not c.pure_fn:
+            res = self.fresh_of_annotation(ret_ann, "ret_%s_%d" % (fi.name, len(self.obligations)), s, node)
+        elif c.pure_fn:
             fn = getattr(V, c.pure_fn)
             zs = [self.to_z(env[a.arg], s, node).t for a in fi.node.args.args if a.arg != "self"]
             res = Z(fn(*zs))
-        else:
+        if not ret_ann and not c.pure_fn:
             res = Z(V.fresh("ret_" + fi.name))
         out = []
         states = [s]
@@ -660,9 +757,15 @@ class Engine(Executor):
                     if box.elem == "str":
                         st.store[v.ref] = SeqBox(z3.Const("loop_%s!%s" % (n, tag), V.SeqStr), "str", box.kind)
                     else:
-                        st.store[v.ref] = AbsBox(box.kind)
+                        ln = z3.Int("loop_%s_len!%s" % (n, tag))
+                        st.assume(ln >= 0)
+                        st.store[v.ref] = AbsBox(box.kind, ln, None)
                 elif isinstance(box, SeqBox):
                     st.store[v.ref] = SeqBox(z3.Const("loop_%s!%s" % (n, tag), V.SeqStr if box.elem == "str" else V.SeqVal), box.elem, box.kind)
+                elif isinstance(box, AbsBox):
+                    ln = z3.Int("loop_%s_len!%s" % (n, tag))
+                    st.assume(ln >= 0)
+                    st.store[v.ref] = AbsBox(box.kind, ln, box.elem_ann)
                 elif isinstance(box, ObjBox):
                     raise Unsupported("loop reassigns object variable %s" % n)
             elif isinstance(v, PyTuple):
@@ -703,6 +806,10 @@ class Engine(Executor):
                     s.assume(z3.And(k >= 0, k < z3.Length(box.term)))
                     el = box.term[k]
                     return Z(V.VStr(el), "str") if box.elem == "str" else Z(el)
+                if isinstance(box, AbsBox) and box.elem_ann is not None:
+                    if box.length is not None:
+                        s.assume(z3.And(k >= 0, k < box.length))
+                    return self.fresh_of_annotation(box.elem_ann, "elem_%s" % tag, s, stmt)
             raise Unsupported("iteration over %s" % type(x).__name__, stmt)
         k = z3.Int("loop_k!%s" % tag)
         if isinstance(it, tuple):
@@ -861,6 +968,8 @@ class Engine(Executor):
             return z3.And(V.is_Str(it.t), z3.Length(V.get_s(it.t)) > 0)
         if isinstance(it, RefV) and isinstance(st.store[it.ref], SeqBox):
             return z3.Length(st.store[it.ref].term) > 0
+        if isinstance(it, RefV) and isinstance(st.store[it.ref], AbsBox) and st.store[it.ref].length is not None:
+            return st.store[it.ref].length > 0
         return T(False)
 
     # ================================================================ verify one function
@@ -886,7 +995,11 @@ class Engine(Executor):
                 continue
             ann = c.params.get(p)
             env[p] = self.fresh_of_annotation(ann, "in_" + p, st, fi.node)
-        if a.vararg is not None:
+        if a.vararg is not None and c.opts.get("varargs") == "abstract":
+            n = z3.Int("in_%s_len" % a.vararg.arg)
+            st.assume(n >= 0)
+            env[a.vararg.arg] = st.alloc(AbsBox("tuple", n, ast.parse(c.params.get("*", "Any"), mode="eval").body))
+        elif a.vararg is not None:
             n = int(c.opts.get("varargs", 0))
             env[a.vararg.arg] = PyTuple([self.fresh_of_annotation(c.params.get("*"), "in_%s%d" % (a.vararg.arg, i), st) for i in range(n)])
         if a.kwarg is not None:
@@ -941,6 +1054,10 @@ class Engine(Executor):
                 env2["result"] = res
                 if fi.is_generator:
                     env2["out"] = PyTuple([v for (v, _ln) in s.out if not isinstance(v, str)]) if not any(v == "havoc" for (v, _l) in s.out) else None
+                if c.opts.get("returns") and isinstance(res, Z):
+                    cst, _h = self.constraint_of_annotation(ast.parse(c.opts["returns"], mode="eval").body, res.t)
+                    if cst is not None:
+                        self.prove(s, cst, "K2", fi.node, "result is %s" % c.opts["returns"], clause="returns:" + c.opts["returns"])
                 for en in c.ensures:
                     try:
                         for (s2, b) in self.eval_clause(en, s.fork(), env2, fi.node):
@@ -963,6 +1080,23 @@ class Engine(Executor):
                 pass
             else:
                 self.unsupported.append((fi.qualname, 0, "loop control at function level"))
+        # K6 termination structure (syntactic): no `while` without a decreases clause, no unannotated self-recursion;
+        # `for` loops iterate values their body does not resize (checked where the loop is executed)
+        whiles = [n for n in ast.walk(fi.node) if isinstance(n, ast.While)]
+        selfcalls = [n for n in ast.walk(fi.node) if isinstance(n, ast.Call) and
+                     ((isinstance(n.func, ast.Attribute) and n.func.attr == fi.name) or (isinstance(n.func, ast.Name) and n.func.id == fi.name))]
+        k6 = self.add_obl("K6", fi.node, "termination structure: %d for-loop(s) over values the body does not resize, %d while-loop(s), %d self-call(s)"
+                          % (sum(1 for n in ast.walk(fi.node) if isinstance(n, ast.For)), len(whiles), len(selfcalls)), [T(False)])
+        k6.status, k6.solver = "unsat", "syntactic"
+        if whiles and not all(self.loop_key(w) in c.loops and c.loops[self.loop_key(w)].get("decreases") for w in whiles):
+            k6.status = "undecided"
+            self.unsupported.append((fi.qualname, whiles[0].lineno, "while loop without a decreases clause"))
+        if selfcalls:
+            if c.opts.get("decreases"):
+                self.assumptions.add("termination of the recursion in %s: decreases %s (stated, not machine-checked)" % (fi.name, c.opts["decreases"]))
+            else:
+                k6.status = "undecided"
+                self.unsupported.append((fi.qualname, selfcalls[0].lineno, "recursive call without a decreases clause"))
         # exceptions whose fate was never decided (path ended in an unsupported construct)
         for (ob, e, bad) in self.pending:
             if ob.status == "pending":
